@@ -28,7 +28,8 @@ var (
 			"list of writes with sizes from {0,1,2,1023,1024,1025,4096,32767,32768,32769,65536,1MiB} over all 256 byte values, read-buffer "+
 			"sizes from {1,7,1024,65536}, pauses, both directions at once; oracle: length and SHA-256 of every received stream equal those of "+
 			"the sent stream, per connection and direction (each stream is a deterministic function of connection id and direction, so foreign "+
-			"bytes cannot match); non-trivial = both directions active with a write > 1024 and a read buffer smaller than a write; distinct = SHA-256 of the case")
+			"bytes cannot match); non-trivial = both directions active with a write > 1024 and a read buffer smaller than a write; distinct = SHA-256 of the case"+
+			" Later additions: connections on which the server speaks first while the client stays silent (second bridge pair).")
 	recP = vh.NewRecorder("C15", "passthrough",
 		"plain HTTP requests (method, target with escapes and query, 0-5 header fields incl. repeated ones, Content-Length or chunked body up to "+
 			"64 KiB) sent to the bridge backend's port; oracle: a recording raw backend receives the same request line, Host, field values and body")
